@@ -138,8 +138,13 @@ fn decrypt_polynomial(context: &Arc<HeContext>, polynomial: &[u64], reference_ci
         SchemeType::BGV => {
             destination.set_parms_id(PARMS_ID_ZERO);
             destination.resize(poly_degree);
+            // BGV: the phase is reduced modulo t in coefficient form (see Decryptor::bgv_decrypt).
+            let mut phase = target.to_vec();
+            if reference_ciphertext.is_ntt_form() {
+                polymod::intt_p(&mut phase, poly_degree, context_data.small_ntt_tables());
+            }
             context_data.rns_tool()
-                .decrypt_scale_and_round(target, destination.data_mut());
+                .decrypt_mod_t(&phase, destination.data_mut());
             let plain_modulus = context_data.parms().plain_modulus();
             if reference_ciphertext.correction_factor() != 1 {
                 let mut fix = 1;
